@@ -18,8 +18,8 @@ def run(chk):
     if getattr(chk, "model", None) is None:
         return chk.finish()
     mons = [("blocking", T.mon_blocking)]
-    T.campaign(chk, 220 if thorough else 40, "blocking", mons)
-    T.campaign(chk, 120 if thorough else 20, "mixed", mons)
+    T.campaign(chk, 600 if thorough else 150, "blocking", mons)
+    T.campaign(chk, 300 if thorough else 60, "mixed", mons)
     extra(chk, thorough)
     chk.assumptions = ["events are injected at quiescent points of the asyncio loop only (cancellation / I/O landing between two "
                        "loop iterations of one settle is outside the model)", "CPython asyncio Lock/Event/Future and async_timeout "
